@@ -56,6 +56,17 @@ def isinstance_test(expr, var=None, cls=None):
     return True
 
 
+def local_aliases(fi, global_name):
+    """Names under which a module-level function is called in fi: itself plus locals bound to it (bfr = build_file_response)."""
+    out = {global_name}
+    for s in stmts_of(fi.node):
+        if isinstance(s, ast.Assign) and isinstance(s.value, ast.Name) and s.value.id == global_name:
+            for t in s.targets:
+                if isinstance(t, ast.Name):
+                    out.add(t.id)
+    return out
+
+
 def returns_of(fi):
     return [s for s in stmts_of(fi.node) if isinstance(s, ast.Return)]
 
@@ -126,7 +137,18 @@ def platform_gated(mod, u):
 
 
 def protected_by(fi, node, exc='Exception'):
-    """Innermost handler of an enclosing try *body* in this function that catches ``exc``."""
+    """Innermost handler of an enclosing try *body* in this function that catches ``exc``.
+    Laziness: code inside a generator expression / lambda does not run where it is written.  A generator
+    expression counts as running in place only when it is the direct argument of a call in the same expression
+    (dict(...), list(...), ''.join(...), any(...)); otherwise the enclosing try does not protect it."""
+    cur = node
+    while cur is not None and cur is not fi.node:
+        par = fi.mod.parents.get(cur)
+        if isinstance(cur, ast.Lambda):
+            return None
+        if isinstance(cur, ast.GeneratorExp) and not (isinstance(par, ast.Call) and cur in par.args):
+            return None
+        cur = par
     for tr, part in enclosing_tries(fi.mod, node, fi.node):
         if part != 'body':
             continue
